@@ -261,8 +261,132 @@ CONTRACTS.append(Contract(
     sample_inputs=lambda g, rnd: [{}], replay_args=lambda g, v: {"args": [], "env": {}},
     ensures=lambda e: [("conditional group selected as C11 prescribes", e.result == e.expect)]))
 
-ASSUMED = ["contracts/csem.py is C11 integer semantics; intmax_t / uintmax_t are 64-bit, two's complement",
+# ---- bounded stand-in for macro expansion (never counted as proved) --------------------------------------------
+# Every translation unit of a fixed corpus (the examples of C11 6.10.3.5 and hand-written corner cases) and of a
+# generated corpus (2-4 object-like / function-like macros whose bodies mention parameters, other macros, calls,
+# #param and a ## b; 1-3 uses) is preprocessed by the real CPreProcessor and the token sequence compared with
+# the reference expander contracts/cppref.py.
+from contracts import cppref as REF
+
+CASES = [
+ "#define A 1\nA + A\n",
+ "#define f(x) x g\n#define g f\ng(1)\n",
+ "#define f(x) (x+1)\nf(f(2))\n",
+ "#define s(x) #x\ns(a  +   b) s( \"q\\n\" ) s()\n",
+ "#define cat(a,b) a##b\ncat(x,y) cat(1,2) cat(,z) cat(w,)\n",
+ "#define xcat(a,b) cat(a,b)\n#define cat(a,b) a##b\n#define N 3\nxcat(v,N) cat(v,N)\n",
+ "#define x 3\n#define f(a) f(x * (a))\n#undef x\n#define x 2\n#define g f\n#define z z[0]\n#define h g(~\n#define m(a) a(w)\n#define w 0,1\n#define t(a) a\nf(y+1) + f(f(z)) % t(t(g)(0) + t)(1);\ng(x+(3,4)-w) | h 5) & m\n(f)^m(m);\n",
+ "#define str(s) # s\n#define xstr(s) str(s)\n#define INCFILE(n) vers ## n\nxstr(INCFILE(2).h) str(INCFILE(2).h)\n",
+ "#define t(x,y,z) x ## y ## z\nint j[] = { t(1,2,3), t(,4,5), t(6,,7), t(8,9,), t(10,,), t(,11,), t(,,12), t(,,) };\n",
+ "#define OBJ_LIKE (1-1)\n#define FUNC_LIKE(a) ( a )\nOBJ_LIKE FUNC_LIKE(2) FUNC_LIKE (3) FUNC_LIKE\n",
+ "#define f(a) a*g\n#define g(a) f(a)\nf(2)(9)\n",
+ "#define AA BB\n#define BB AA\nAA BB\n",
+ "#define e() 1\ne() e( ) e\n",
+ "#define hash_hash # ## #\n#define mkstr(a) # a\n#define in_between(a) mkstr(a)\n#define join(c, d) in_between(c hash_hash d)\njoin(x, y)\n",
+ "#define f(x,y) x y\nf((1,2),3) f(a,(b,c))\n",
+ "#define p(x) x x\n#define q p(q)\nq\n",
+ "#define a(x) b(x) c\n#define b(x) a(x) d\na(1) b(2)\n",
+ "#define ID(x) x\n#define F ID(G)(1)\n#define G(x) x+F\nF\n",
+]
+
+
+def gen_program(rnd, feat):
+    names = ["A", "B", "F", "G", "H"][:rnd.randint(2, 4)]
+    kinds = {}
+    lines = []
+    for n in names:
+        kinds[n] = rnd.choice(["obj", "fun1", "fun2"]) if n in ("F", "G", "H") else rnd.choice(["obj", "obj", "fun1"])
+    def body_tok(params, depth=0):
+        r = rnd.random()
+        if params and r < 0.35: return rnd.choice(params)
+        if r < 0.6:
+            m = rnd.choice(names)
+            if kinds[m] == "obj" or rnd.random() < 0.25: return m
+            k = 1 if kinds[m] == "fun1" else 2
+            if depth > 1: return m
+            return m + "(" + ",".join(body_tok(params, depth + 1) for _ in range(k)) + ")"
+        if r < 0.8: return rnd.choice(["1", "2", "x", "y", "+", "*", "-"])
+        return rnd.choice(["(", ")"]) if False else rnd.choice(["z", "7"])
+    for n in names:
+        k = kinds[n]
+        params = [] if k == "obj" else (["p"] if k == "fun1" else ["p", "q"])
+        toks = [body_tok(params) for _ in range(rnd.randint(1, 4))]
+        if params and "str" in feat and rnd.random() < 0.3:
+            toks.insert(rnd.randint(0, len(toks)), "#" + rnd.choice(params))
+        if "paste" in feat and rnd.random() < 0.3:
+            a = rnd.choice(params + ["x", "v"]); b = rnd.choice(params + ["1", "w"])
+            toks.insert(rnd.randint(0, len(toks)), a + " ## " + b)
+        body = " ".join(toks)
+        lines.append("#define %s%s %s" % (n, "" if k == "obj" else "(" + ",".join(params) + ")", body))
+    uses = []
+    for _ in range(rnd.randint(1, 3)):
+        uses.append(body_tok([], 0))
+        if rnd.random() < 0.3: uses.append(rnd.choice(["+", ";", "(3)", "(x,y)"]))
+    lines.append(" ".join(uses))
+    return "\n".join(lines) + "\n"
+
+
+
+def ppci_tokens(src):
+    from ppci.lang.c import CPreProcessor, COptions
+    p = CPreProcessor(COptions())
+    toks = list(p.process_file(io.StringIO(src), "x.c"))
+    return [t.val for t in toks if hasattr(t, "typ") and t.typ not in ("WS", "BOL")]
+
+
+def _judge(src):
+    """(ok, expected, observed); expected None = the reference rejects the unit (not judged)"""
+    try:
+        want = REF.preprocess(src)
+    except (ValueError, RecursionError):
+        return True, None, None
+    try:
+        got = ppci_tokens(src)
+    except RecursionError:
+        got = "raised RecursionError"
+    except Exception as ex:
+        got = "raised %s: %s" % (type(ex).__name__, str(ex)[:80])
+    return got == want, want, got
+
+
+def bounded(tier_name, rnd):
+    import random
+    n = 600 if tier_name == "quick" else 6000
+    units = [("fixed-%d" % i, s) for i, s in enumerate(CASES)]
+    r = random.Random(20260922)
+    for i in range(n):
+        feat = ([], ["str"], ["paste"], ["str", "paste"])[i % 4]
+        units.append(("gen-%d" % i, gen_program(r, feat)))
+    evals, judged, vio, distinct = 0, 0, [], set()
+    for name, src in units:
+        evals += 1
+        ok, want, got = _judge(src)
+        if want is None:
+            continue
+        judged += 1
+        distinct.add(src)
+        if not ok and len(vio) < 8:
+            vio.append({"name": "preprocessing of unit %s == reference token sequence" % name, "input": {"unit": name, "source": src},
+                        "expected": repr(want)[:600], "observed": repr(got)[:600]})
+    return {"evaluations": evals, "distinct_nontrivial": len(distinct), "exhaustive": False,
+            "rule": "fixed corpus (%d units: C11 6.10.3.5 examples 3, 4, 5, 7 and corner cases of rescanning, hide sets, empty arguments, # and ##) plus %d generated units "
+                    "(deterministic seed; 2-4 macros, bodies of 1-4 items drawn from parameters, macro names, nested calls, literals, #param, a ## b; 1-3 uses, some followed by "
+                    "a parenthesised list); a unit counts when the reference expander accepts it (arity errors and unterminated calls are not judged); distinct = distinct source texts"
+                    % (len(CASES), n),
+            "programs": judged, "samples": [{"unit": "fixed-6", "source": CASES[6]}, {"unit": units[len(CASES) + 3][0], "source": units[len(CASES) + 3][1]}],
+            "bound": "macro expansion only (no conditionals, includes, variadic macros, comments, line splices); units of at most 5 lines; %s tier: %d generated units" % (tier_name, n),
+            "violations": vio}
+
+
+def replay_bounded(inp):
+    ok, want, got = _judge(inp["source"])
+    return ok, {"unit": inp.get("unit"), "source": inp["source"], "expected": repr(want)[:600], "observed": repr(got)[:600]}
+
+
+ASSUMED = ["contracts/cppref.py implements C11 6.10.3 (cross-validated against gcc's cpp during development; gcc is not needed at run time)",
+           "contracts/csem.py is C11 integer semantics; intmax_t / uintmax_t are 64-bit, two's complement",
            "literal typing (u suffix or value above INTMAX_MAX => uintmax_t) is done by the parser (parse_expression / cnum): covered by the "
            "concrete whole-directive cases only; the symbolic contracts build typed literals"]
-NOT_COVERED = ["macro expansion, hide sets, stringification, token pasting, directive handling (token-sequence equality with a conforming "
-               "preprocessor is outside contract reach)", "the parser of #if expressions (precedence, literal suffixes) beyond the concrete cases"]
+NOT_COVERED = ["macro expansion, hide sets, stringification and token pasting beyond the bounded stand-in (token-sequence equality with a conforming preprocessor for "
+               "all translation units is outside contract reach); variadic macros, conditional-directive nesting, includes, comments, line splices, predefined macros",
+               "the parser of #if expressions (precedence, literal suffixes) beyond the concrete cases"]
